@@ -9,6 +9,10 @@ from . import julian
 
 
 def run(ctx, rep, pid='C01'):
+    # the reported time is a function of the request alone: a cache or other hidden state on the computation path makes it depend on what was
+    # computed before (C20's R20.5) - the same place and date, asked with another school, angle or weather, would get the earlier answer
+    from . import shared, c20 as _c20h
+    shared.include(ctx, rep, _c20h.run, {'R20.5'}, why='no thread-local, static or lock-protected state on the computation path')
     rep.explanation = (
         'Decides three structural clauses: Dhuhr is always reported (typestate over every outcome and every skeleton world), '
         'modular-angle hygiene of every difference of wrapped angles (R1.2, shared with C13), and independence of Dhuhr from '
